@@ -23,6 +23,7 @@ import (
 	"time"
 
 	"github.com/cloudwego/eino/callbacks"
+	"github.com/cloudwego/eino/schema"
 )
 
 type vopUnit struct {
@@ -494,6 +495,25 @@ func (r *vopRun) runCase() {
 			return
 		}
 		invoke = func(ctx context.Context, in string, opts ...Option) error {
+			if c.Mode == "collect" {
+				_, err := run.Collect(ctx, schema.StreamReaderFromArray([]string{in}), opts...)
+				return err
+			}
+			if c.Mode == "transform" {
+				sr, err := run.Transform(ctx, schema.StreamReaderFromArray([]string{in}), opts...)
+				if err != nil {
+					return err
+				}
+				defer sr.Close()
+				for {
+					if _, e := sr.Recv(); e != nil {
+						if e == io.EOF {
+							return nil
+						}
+						return e
+					}
+				}
+			}
 			if c.Mode == "stream" {
 				sr, err := run.Stream(ctx, in, opts...)
 				if err != nil {
